@@ -120,7 +120,7 @@ func (x *Exec) unsafeCheck(st *State, loc *unsafeLoc, n ast.Node) (sT types.Type
 	}
 	x.d.instantiate("Layout", map[string]string{})
 	x.nilCheck(st, loc.base, n)
-	x.oblige(st, "safety", "validLoc", tApp("Bool", "validloc", rs, loc.off, ra), n, "the unsafe access addresses a field of the struct with exactly the accessed type (stays inside that field)")
+	x.oblige(st, "safety", "validLoc", tApp("Bool", "validlocany", rs, loc.off, ra), n, "the unsafe access addresses a field of the struct with exactly the accessed type (stays inside that field)")
 	return bp.Elem(), true
 }
 
